@@ -42,6 +42,12 @@ class CallMixin:
                 return self.ev_Call(e2, st, exc, expect)
         if any(isinstance(a, ast.Starred) for a in e.args) or any(k.arg is None for k in e.keywords):
             return self.opaque_call(e, st, exc, expect, star=True)
+        if isinstance(e.func, ast.Name) and e.func.id in st.env and st.env[e.func.id].s == FUNC \
+                and isinstance(st.env[e.func.id].t, tuple) and st.env[e.func.id].t[0] == "alias":
+            e2 = ast.Call(func=st.env[e.func.id].t[1], args=e.args, keywords=e.keywords)
+            ast.copy_location(e2, e)
+            ast.fix_missing_locations(e2)
+            return self.ev_Call(e2, st, exc, expect)
         text = ast.unparse(e.func)
         # 1. contract by source text
         c = self.find_contract_text(text)
